@@ -211,7 +211,7 @@ theorem Ext.consOK {w w' : World Val Err Op} (e : Ext w w') {c : Consumer Val} (
   | trigY c t yr =>
     obtain ⟨a1, ce, a2⟩ := h
     exact ⟨e.argClean a1, ce, e.sArgExpr a2⟩
-  | sync k n deps =>
+  | sync k n deps a =>
     obtain ⟨nd, a1, a2, a3⟩ := h
     exact ⟨nd, e.statNode a1, a2, a3⟩
 
